@@ -175,9 +175,10 @@ def oracle(ctx):
             ctx.count("hour24")
         if c["tf"] in ic.HAS_F:
             ctx.count("frac_digits_%d" % c["k"])
-        runs = [(None, "bytes", c["raw"])]
+        runs = [(None, "bytes", c["raw"]), (None, "bstream", c["raw"]), (None, "bstream@3", c["raw"])]
         if c["sep"] < 128:
-            runs += [(None, "str", s), (None, "stream", s), (chr(c["sep"]), "str", s), (chr(c["sep"]), "bytes", s)]
+            runs += [(None, "str", s), (None, "stream", s), (None, "stream@7", s), (chr(c["sep"]), "str", s),
+                     (chr(c["sep"]), "bytes", s), (chr(c["sep"]), "stream", s), (chr(c["sep"]), "bstream@3", s)]
             if c["tf"] == 0:
                 runs.append(("T", "str", s))
         for (sepcfg, kind, inp) in runs:
@@ -194,7 +195,7 @@ def oracle(ctx):
             for (entry, part, pexp) in sub_entries(c):
                 if pexp is None:
                     continue
-                for kind in ("str", "bytes"):
+                for kind in ("str", "bytes", "stream", "bstream@3"):
                     got = ic.entry_impl(entry, part, kind=kind)
                     ctx.case((entry, None, kind, part))
                     ctx.count("entry_" + entry)
@@ -202,6 +203,22 @@ def oracle(ctx):
                         ctx.violation("parse_%s(%r) = %s, expected %s" % (entry, part, got, pexp),
                                       {"entry": entry, "sep": None, "kind": kind, "string": part, "form": name, "expected": pexp},
                                       {"impl": got})
+        # str / bytes / text stream / byte stream / partially consumed streams must agree on EVERY text, also on
+        # texts decorated with line breaks and blanks (whatever the result is: value or exception kind)
+        if c["sep"] < 128:
+            wv = ic.WHITESPACE_VARIANTS[(c["df"] + c["tf"] + c["of"] + c["k"]) % len(ic.WHITESPACE_VARIANTS)]
+            for txt in (s, wv(s)):
+                res, ok = ic.kinds_agree("isoparse", txt)
+                ctx.case(("kinds", txt), nontrivial=True)
+                ctx.count("kinds_agree_cases")
+                if not ok:
+                    bad = sorted(res.items())
+                    ref = res["str"]
+                    k0 = next(k for k, v in bad if v != ref)
+                    ctx.violation("isoparse(%r) differs by input kind: str -> %s, %s -> %s" % (txt, ref, k0, res[k0]),
+                                  {"entry": "isoparse", "sep": None, "kind": k0, "string": txt, "form": name, "expected": ref,
+                                   "stream_content": (ic.STREAM_PREFIX[:int(k0.partition("@")[2] or 0)] + txt)},
+                                  {"by_kind": res})
         if len(ctx.samples) < 10 and (c["df"] * 7 + c["tf"] * 3 + c["of"]) % 41 == 0:
             ctx.sample({"form": name, "string": s, "expected": exp, "impl": ic.impl_parse(None, c["raw"], "bytes")})
     # offsets exhaustively through parse_tzstr
